@@ -14,6 +14,13 @@ import DulwichModel.Gen.Config
 namespace Dulwich.Config
 open Dulwich
 
+/-- decidable equality of results (core has none for `Except`); scoped so that other models are unaffected -/
+scoped instance exceptDecEq {α : Type} [DecidableEq α] : DecidableEq (Except Err α)
+  | .ok a, .ok b => if h : a = b then isTrue (by rw [h]) else isFalse (fun h' => by cases h'; exact h rfl)
+  | .error a, .error b => if h : a = b then isTrue (by rw [h]) else isFalse (fun h' => by cases h'; exact h rfl)
+  | .ok _, .error _ => isFalse (fun h => by cases h)
+  | .error _, .ok _ => isFalse (fun h => by cases h)
+
 /-! ## CPython byte classes and slicing helpers -/
 
 /-- byte removed by argument-less `bytes.strip()/lstrip()/rstrip()` -/
